@@ -131,3 +131,238 @@ package res
 //@   ensures ea: imp(len(a) == 0, res == b)
 //@   ensures eb: imp(len(b) == 0 && len(a) > 0, res == a)
 //@   ensures cat: imp(len(a) > 0 && len(b) > 0, len(res) == len(a) + 1 + len(b) && res[0:len(a)] == a && res[len(a)] == '.' && res[len(a)+1:] == b)
+//@
+//@ # ================================================================ requests (C04, C05, C07)
+//@ props C04 C05 C07
+//@ ghostvar rcount arr
+//@ # rcount[q]: number of responses (not pre-responses) published for request object q
+//@ pred reqOK(q *Request) = q != nil && q.s != nil && q.msg != nil && !isNil(q.s.nc)
+//@ pred invR(q *Request) = rcount[ref(q)] == ite(q.replied, 1, 0)
+//@
+//@ func callback.benign(self ref, s *Service, msg string)
+//@   ensures true
+//@ func (s *Service) tracef(format string, v []interface{})
+//@   requires s != nil
+//@ func (s *Service) errorf(format string, v []interface{})
+//@   requires s != nil
+//@   callback onError benign
+//@ func (s *Service) infof(format string, v []interface{})
+//@   requires s != nil
+//@
+//@ func (r *Request) reply(payload []byte)
+//@   requires reqOK(r)
+//@   modifies res.Request.replied, ghost.rcount, ghost.pubn
+//@   ensures ok: !old(r.replied) && r.replied && rcount == store(old(rcount), ref(r), old(rcount[ref(r)]) + 1)
+//@   ensures_on_panic dup: old(r.replied) && r.replied && rcount == old(rcount) && pubn == old(pubn)
+//@   ghost call Conn.Publish#1 before :: assert arg_subject == r.msg.Reply
+//@   ghost call Conn.Publish#1 after :: set rcount = store(rcount, ref(r), rcount[ref(r)] + 1)
+//@
+//@ func (r *Request) meta() (m *metaObject)
+//@   requires r != nil
+//@   modifies alloc, res.metaObject.Header, res.metaObject.Status
+//@   ensures nilm: iff(m == nil, len(r.rheader) == 0 && r.status == 0)
+//@
+//@ func (r *Request) error(e *Error, m *metaObject)
+//@   requires reqOK(r)
+//@   modifies res.Request.replied, ghost.rcount, ghost.pubn
+//@   ensures ok: !old(r.replied) && r.replied && rcount == store(old(rcount), ref(r), old(rcount[ref(r)]) + 1)
+//@   ensures_on_panic dup: old(r.replied) && r.replied && rcount == old(rcount)
+//@
+//@ func (r *Request) success(result interface{}, m *metaObject)
+//@   requires reqOK(r)
+//@   modifies res.Request.replied, ghost.rcount, ghost.pubn, alloc
+//@   ensures ok: !old(r.replied) && r.replied && rcount == store(old(rcount), ref(r), old(rcount[ref(r)]) + 1)
+//@   ensures_on_panic dup: old(r.replied) && r.replied && rcount == old(rcount)
+//@
+//@ func ToError(err error) (rerr *Error)
+//@   modifies alloc, res.Error.Code, res.Error.Message, res.Error.Data
+//@   may_panic
+//@   ensures verbatim: imp(typeIs(err, "*res.Error"), rerr == ptrOf(err, "*res.Error"))
+//@   ensures internal: imp(!typeIs(err, "*res.Error"), !isNil(err) && rerr != nil && rerr.Code == "system.internalError")
+//@   ensures_on_panic isNil(err)
+//@ func InternalError(err error) (rerr *Error)
+//@   modifies alloc, res.Error.Code, res.Error.Message, res.Error.Data
+//@   may_panic
+//@   ensures !isNil(err) && rerr != nil && rerr.Code == "system.internalError"
+//@   ensures_on_panic isNil(err)
+//@
+//@ # ---- response methods: each preserves invR on both exits; replied is monotone
+//@ pred respOK(q *Request) = invR(q) && q.replied
+//@ pred respX(q *Request) = invR(q) && imp(old(q.replied), q.replied) && rcount == old(rcount)
+//@
+//@ func (r *Request) OK(result interface{})
+//@   requires reqOK(r) && invR(r)
+//@   modifies res.Request.replied, ghost.rcount, ghost.pubn, alloc, res.metaObject.Header, res.metaObject.Status
+//@   ensures respOK(r) && !old(r.replied)
+//@   ensures_on_panic respX(r)
+//@ func (r *Request) Error(err error)
+//@   requires reqOK(r) && invR(r)
+//@   modifies res.Request.replied, ghost.rcount, ghost.pubn, alloc, res.metaObject.Header, res.metaObject.Status, res.Error.Code, res.Error.Message, res.Error.Data
+//@   ensures respOK(r) && !old(r.replied)
+//@   ensures_on_panic respX(r)
+//@ func (r *Request) NotFound()
+//@   requires reqOK(r) && invR(r)
+//@   modifies res.Request.replied, ghost.rcount, ghost.pubn, alloc, res.metaObject.Header, res.metaObject.Status
+//@   ensures respOK(r) && !old(r.replied)
+//@   ensures_on_panic respX(r)
+//@ func (r *Request) MethodNotFound()
+//@   requires reqOK(r) && invR(r)
+//@   modifies res.Request.replied, ghost.rcount, ghost.pubn, alloc, res.metaObject.Header, res.metaObject.Status
+//@   ensures respOK(r) && !old(r.replied)
+//@   ensures_on_panic respX(r)
+//@ func (r *Request) InvalidParams(message string)
+//@   requires reqOK(r) && invR(r)
+//@   modifies res.Request.replied, ghost.rcount, ghost.pubn, alloc, res.metaObject.Header, res.metaObject.Status, res.Error.Code, res.Error.Message, res.Error.Data
+//@   ensures respOK(r) && !old(r.replied)
+//@   ensures_on_panic respX(r)
+//@ func (r *Request) InvalidQuery(message string)
+//@   requires reqOK(r) && invR(r)
+//@   modifies res.Request.replied, ghost.rcount, ghost.pubn, alloc, res.metaObject.Header, res.metaObject.Status, res.Error.Code, res.Error.Message, res.Error.Data
+//@   ensures respOK(r) && !old(r.replied)
+//@   ensures_on_panic respX(r)
+//@ func (r *Request) AccessDenied()
+//@   requires reqOK(r) && invR(r)
+//@   modifies res.Request.replied, ghost.rcount, ghost.pubn, alloc, res.metaObject.Header, res.metaObject.Status
+//@   ensures respOK(r) && !old(r.replied)
+//@   ensures_on_panic respX(r)
+//@ func (r *Request) AccessGranted()
+//@   requires reqOK(r) && invR(r)
+//@   modifies res.Request.replied, ghost.rcount, ghost.pubn, alloc, res.metaObject.Header, res.metaObject.Status
+//@   ensures respOK(r) && !old(r.replied)
+//@   ensures_on_panic respX(r)
+//@ func (r *Request) Access(get bool, call string)
+//@   requires reqOK(r) && invR(r)
+//@   modifies res.Request.replied, ghost.rcount, ghost.pubn, alloc, res.metaObject.Header, res.metaObject.Status
+//@   ensures respOK(r) && !old(r.replied)
+//@   ensures_on_panic respX(r)
+//@ func (r *Request) model(model interface{}, query string)
+//@   requires reqOK(r) && invR(r)
+//@   modifies res.Request.replied, ghost.rcount, ghost.pubn, alloc
+//@   ensures respOK(r) && !old(r.replied)
+//@   ensures_on_panic respX(r)
+//@ func (r *Request) collection(collection interface{}, query string)
+//@   requires reqOK(r) && invR(r)
+//@   modifies res.Request.replied, ghost.rcount, ghost.pubn, alloc
+//@   ensures respOK(r) && !old(r.replied)
+//@   ensures_on_panic respX(r)
+//@ func (r *Request) Model(model interface{})
+//@   requires reqOK(r) && invR(r)
+//@   modifies res.Request.replied, ghost.rcount, ghost.pubn, alloc
+//@   ensures respOK(r) && !old(r.replied)
+//@   ensures_on_panic respX(r)
+//@ func (r *Request) QueryModel(model interface{}, query string)
+//@   requires reqOK(r) && invR(r)
+//@   modifies res.Request.replied, ghost.rcount, ghost.pubn, alloc
+//@   ensures respOK(r) && !old(r.replied)
+//@   ensures_on_panic respX(r)
+//@ func (r *Request) Collection(collection interface{})
+//@   requires reqOK(r) && invR(r)
+//@   modifies res.Request.replied, ghost.rcount, ghost.pubn, alloc
+//@   ensures respOK(r) && !old(r.replied)
+//@   ensures_on_panic respX(r)
+//@ func (r *Request) QueryCollection(collection interface{}, query string)
+//@   requires reqOK(r) && invR(r)
+//@   modifies res.Request.replied, ghost.rcount, ghost.pubn, alloc
+//@   ensures respOK(r) && !old(r.replied)
+//@   ensures_on_panic respX(r)
+//@ func (r *Request) New(rid Ref)
+//@   requires reqOK(r) && invR(r)
+//@   modifies res.Request.replied, ghost.rcount, ghost.pubn, alloc
+//@   ensures respOK(r) && !old(r.replied)
+//@   ensures_on_panic respX(r)
+//@ func (r *Request) Resource(rid string)
+//@   requires reqOK(r) && invR(r)
+//@   modifies res.Request.replied, ghost.rcount, ghost.pubn, alloc, res.metaObject.Header, res.metaObject.Status, res.Error.Code, res.Error.Message, res.Error.Data
+//@   ensures respOK(r) && !old(r.replied)
+//@   ensures_on_panic respX(r)
+//@ func (r *Request) SetResponseStatus(code int)
+//@   requires r != nil
+//@   modifies res.Request.status
+//@   ensures r.isHTTP && !r.replied && r.status == code
+//@   ensures_on_panic !r.isHTTP || r.replied
+//@ func (r *Request) ResponseHeader() (h http.Header)
+//@   requires r != nil
+//@   modifies res.Request.rheader, alloc, map.card
+//@   ensures r.isHTTP && !r.replied
+//@   ensures_on_panic !r.isHTTP || r.replied
+//@
+//@ # ---- request handlers are arbitrary client code holding the request (DESIGN 3.5): they may call any
+//@ # exported method any number of times and may panic. What is true of every such program: the
+//@ # object invariant invR holds afterwards, replied is monotone, and the unexported routing fields
+//@ # are untouched (T6: encapsulation).
+//@ pred hstable(q *Request) = invR(q) && imp(old(q.replied), q.replied) && same(q.rtype, old(q.rtype)) && same(q.method, old(q.method))
+//@     && q.msg == old(q.msg) && q.s == old(q.s) && same(q.s.nc, old(q.s.nc)) && same(q.msg.Reply, old(q.msg.Reply))
+//@     && same(q.h, old(q.h)) && q.s.logger == old(q.s.logger) && same(q.msg.Subject, old(q.msg.Subject))
+//@ func callback.handler(self ref, r iface)
+//@   requires typeIs(r, "*res.Request") && reqOK(ptrOf(r, "*res.Request")) && invR(ptrOf(r, "*res.Request"))
+//@   modifies all
+//@   ensures hstable(ptrOf(r, "*res.Request"))
+//@   ensures_on_panic hstable(ptrOf(r, "*res.Request"))
+//@
+//@ func Request.executeHandler$1()
+//@   requires reqOK(r) && invR(r)
+//@   modifies res.Request.replied, ghost.rcount, ghost.pubn, alloc, res.metaObject.Header, res.metaObject.Status, res.Error.Code, res.Error.Message, res.Error.Data
+//@   ensures quiet: imp(isNil(recovered), r.replied == old(r.replied) && rcount == old(rcount))
+//@   ensures answered: imp(!isNil(recovered), r.replied && invR(r))
+//@
+//@ func (r *Request) executeHandler()
+//@   requires reqOK(r) && !r.replied && rcount[ref(r)] == 0
+//@   requires rt: r.rtype == "access" || r.rtype == "get" || r.rtype == "call" || r.rtype == "auth"
+//@   modifies all
+//@   callback Access handler
+//@   callback Get handler
+//@   callback New handler
+//@   callback h handler
+//@   dead return1
+//@   ensures answered: imp(!(r.rtype == "access" && r.h.Access == nil), r.replied && rcount[ref(r)] == 1)
+//@   ensures silent: imp(r.rtype == "access" && r.h.Access == nil, rcount[ref(r)] == 0)
+//@
+//@ # ---- accessors (C05: the handler sees the fields exactly as stored)
+//@ func (r *Request) Type() (res string)
+//@   requires r != nil
+//@   ensures same(res, r.rtype)
+//@ func (r *Request) Method() (res string)
+//@   requires r != nil
+//@   ensures same(res, r.method)
+//@ func (r *Request) CID() (res string)
+//@   requires r != nil
+//@   ensures same(res, r.cid)
+//@ func (r *Request) RawParams() (res json.RawMessage)
+//@   requires r != nil
+//@   ensures same(res, r.params)
+//@ func (r *Request) RawToken() (res json.RawMessage)
+//@   requires r != nil
+//@   ensures same(res, r.token)
+//@ func (r *Request) Header() (res map[string][]string)
+//@   requires r != nil
+//@   ensures same(res, r.header)
+//@ func (r *Request) Host() (res string)
+//@   requires r != nil
+//@   ensures same(res, r.host)
+//@ func (r *Request) RemoteAddr() (res string)
+//@   requires r != nil
+//@   ensures same(res, r.remoteAddr)
+//@ func (r *Request) URI() (res string)
+//@   requires r != nil
+//@   ensures same(res, r.uri)
+//@ func (r *Request) IsHTTP() (res bool)
+//@   requires r != nil
+//@   ensures res == r.isHTTP
+//@ func (r *resource) Service() (res *Service)
+//@   requires r != nil
+//@   ensures res == r.s
+//@ func (r *resource) ResourceName() (res string)
+//@   requires r != nil
+//@   ensures same(res, r.rname)
+//@ func (r *resource) PathParams() (res map[string]string)
+//@   requires r != nil
+//@   ensures same(res, r.pathParams)
+//@ func (r *resource) Query() (res string)
+//@   requires r != nil
+//@   ensures same(res, r.query)
+//@ func (r *resource) Group() (res string)
+//@   requires r != nil
+//@   ensures same(res, r.group)
+//@ func (r *resource) ResourceType() (res ResourceType)
+//@   requires r != nil
+//@   ensures res == r.h.Type
